@@ -921,9 +921,11 @@ Ltac gs := cbn [now lvl dstep dval d_on d_due d_seq last cc maxc act relg disg l
                 set_now set_lvl set_dstep set_dval set_d_on set_d_due set_d_seq set_last set_cc set_maxc set_act
                 set_relg set_disg set_lsc set_silent set_t_on set_t_due set_t_seq set_t_adv set_m_on set_m_due
                 set_m_seq set_relay set_seqc set_halted set_late set_outs set_tr emit andb orb negb].
-(* closed comparisons of generated constants *)
+(* closed comparisons of generated constants / numerals *)
+Ltac closedZ t := match t with Z0 => idtac | Zpos _ => idtac | Zneg _ => idtac | _ => is_const t end.
 Ltac kc := repeat match goal with
-  | |- context[?a =? ?b] => let v := eval vm_compute in (a =? b) in
+  | |- context[?a =? ?b] => closedZ a; closedZ b;
+      let v := eval vm_compute in (a =? b) in
       match v with true => change (a =? b) with true | false => change (a =? b) with false end
   | |- context[hasb 0 ?b] => change (hasb 0 b) with false
   end.
